@@ -1564,7 +1564,9 @@ def elasticity_loss(
     kwargs = dict(mode=mode, sigma=sigma, spacing=spacing, stride=stride)
     which = FlowDerivativeKeys.jacobian(spatial_dims=D)
     deriv = flow_derivatives(u, which=which, **kwargs)
-    loss = torch.zeros((N, 1) + u.shape[2:], dtype=u.dtype, device=u.device)
+    # Shape of derivatives differs from u.shape[2:] when evaluated at image points for mode="bspline"
+    shape = next(iter(deriv.values())).shape[2:]
+    loss = torch.zeros((N, 1) + shape, dtype=u.dtype, device=u.device)
     if lambd != 0:
         for i in range(D):
             loss = loss.add_(deriv[FlowDerivativeKeys.symbol(i, i)])
